@@ -18,7 +18,7 @@ RULE = ('random grammars with keyword literals, symbol literals containing lette
         'regex-assigned and ID values are the text as written; string-literal values keep the grammar spelling. distinct = '
         '(grammar skeleton, token kinds, flipped mask); non-trivial = at least one flipped letter lies in a symbol-with-letters '
         'literal, a regex literal or a separator')
-REQUIRED = {'variants_checked': 2000, 'inputs': 200, 'flips_in_symbol_literals': 50, 'flips_in_regex_literals': 50,
+REQUIRED = {'case_sensitive_twin_built_first': 50, 'variants_checked': 2000, 'inputs': 200, 'flips_in_symbol_literals': 50, 'flips_in_regex_literals': 50,
             'autokwd_on': 50, 'autokwd_off': 50, 'exhaustive_masks': 20}
 
 
@@ -55,6 +55,11 @@ def _one(ctx, i, rep=None):
     cfg = dict(skipws=r.random() < 0.9, auto_init_attributes=True, use_regexp_group=False, ignore_case=True,
                autokwd=r.random() < 0.5)
     try:
+        twin = None
+        if i % 2:
+            # the same grammar compiled case-sensitively first, alive in the same process
+            twin = P.make_mm(text, **dict(cfg, ignore_case=False))
+            ctx.count('case_sensitive_twin_built_first')
         mm = P.make_mm(text, **cfg)
     except TextXError as e:
         ctx.violation(None, 'generated grammar rejected: %s' % str(e)[:100], {'grammar': text}, rep)
